@@ -381,8 +381,9 @@ def faults(o):
         ("merge_bad_axis_index", lambda: o.merge_bins(2, axis=o.ndim + 3, inplace=True), True),
         ("merge_bad_axis_name", lambda: o.merge_bins(2, axis="no such axis", inplace=True), True),
         ("frequencies_wrong_shape", lambda: setattr(o, "frequencies", np.zeros(tuple(s + 1 for s in o.shape))), True),
-        ("frequencies_negative", lambda: setattr(o, "frequencies", -np.ones(o.shape)), n0 > 0),
-        ("errors2_negative", lambda: setattr(o, "errors2", -np.ones(o.shape)), n0 > 0),
+        # (an axis without bins - also one of several - leaves no cell to hold a negative value)
+        ("frequencies_negative", lambda: setattr(o, "frequencies", -np.ones(o.shape)), int(np.prod(o.shape)) > 0),
+        ("errors2_negative", lambda: setattr(o, "errors2", -np.ones(o.shape)), int(np.prod(o.shape)) > 0),
         ("errors2_wrong_shape", lambda: setattr(o, "errors2", np.zeros(tuple(s + 2 for s in o.shape))), True),
         ("index_out_of_range", lambda: o[99] if o.ndim == 1 else o[(99,) * o.ndim], True),
         ("index_reversed_slice", lambda: o[::-1], True),
